@@ -592,3 +592,148 @@ def cleanup_live_pools():
             p._state = "TERMINATE"
         except Exception:
             pass
+
+
+# ---------------------------------------------------------------------- concurrent.futures on top of SimPool
+
+class SimFuture:
+    """Just enough of concurrent.futures.Future for code that submits work to an executor."""
+
+    def __init__(self, ex, res):
+        self._ex, self._res = ex, res
+        self._callbacks = []
+
+    def done(self):
+        return self._res.ready()
+
+    def running(self):
+        return not self._res.ready()
+
+    def cancelled(self):
+        return False
+
+    def cancel(self):
+        return False
+
+    def result(self, timeout=None):
+        from concurrent.futures import TimeoutError as FTimeout
+        try:
+            return self._res.get(timeout)
+        except MPTimeoutError:
+            raise FTimeout() from None
+
+    def exception(self, timeout=None):
+        from concurrent.futures import TimeoutError as FTimeout
+        try:
+            self._res.get(timeout)
+        except MPTimeoutError:
+            raise FTimeout() from None
+        except BaseException as e:  # noqa: BLE001
+            if isinstance(e, (SimHang, SimStepCap)):
+                raise
+            return e
+        return None
+
+    def add_done_callback(self, fn):
+        if self.done():
+            fn(self)
+        else:
+            self._callbacks.append(fn)
+
+
+class SimExecutor:
+    """Drop-in for concurrent.futures.ProcessPoolExecutor driven by the same scheduler as SimPool."""
+
+    def __init__(self, max_workers=None, mp_context=None, initializer=None, initargs=(), max_tasks_per_child=None):
+        self._pool = SimPool(max_workers, initializer, initargs, max_tasks_per_child)
+        self._futures = []
+
+    def submit(self, fn, /, *args, **kwargs):
+        def done(_):
+            for cb in list(fut._callbacks):
+                cb(fut)
+        res = self._pool.apply_async(fn, args, kwargs, callback=done, error_callback=done)
+        fut = SimFuture(self, res)
+        self._futures.append(fut)
+        return fut
+
+    def map(self, fn, *iterables, timeout=None, chunksize=1):
+        items = list(zip(*iterables))
+        if chunksize < 1:
+            raise ValueError("chunksize must be >= 1.")
+        it = self._pool.imap(_star(fn), items, chunksize)
+
+        def gen():
+            for x in it:
+                yield x
+        return gen()
+
+    def shutdown(self, wait=True, *, cancel_futures=False):
+        if self._pool._state == "TERMINATE":
+            return
+        if wait and not cancel_futures:
+            self._pool.close()
+            self._pool.join()
+        else:
+            self._pool.terminate()
+
+    def __enter__(self):
+        return self
+
+    def __exit__(self, *exc):
+        self.shutdown(wait=True)
+        return False
+
+
+class _star:
+    def __init__(self, fn):
+        self.fn = fn
+
+    def __call__(self, args):
+        return self.fn(*args)
+
+
+def sim_as_completed(fs, timeout=None):
+    """concurrent.futures.as_completed over SimFutures: yields in *delivery* order chosen by the scheduler."""
+    fs = list(fs)
+    if not fs or not all(isinstance(f, SimFuture) for f in fs):
+        import concurrent.futures as cf
+        yield from _REAL_AS_COMPLETED(fs, timeout)
+        return
+    pending = list(fs)
+    pool = fs[0]._ex._pool
+    while pending:
+        ready = [f for f in pending if f.done()]
+        if not ready:
+            pool._wait(lambda: any(f.done() for f in pending), timeout, "as_completed")
+            ready = [f for f in pending if f.done()]
+        # the scheduler may have completed several: hand them out in the order they were delivered
+        for f in ready:
+            pending.remove(f)
+            yield f
+
+
+def sim_wait(fs, timeout=None, return_when="ALL_COMPLETED"):
+    from concurrent.futures._base import DoneAndNotDoneFutures
+    fs = list(fs)
+    if not fs or not all(isinstance(f, SimFuture) for f in fs):
+        return _REAL_WAIT(fs, timeout, return_when)
+    pool = fs[0]._ex._pool
+
+    def cond():
+        if return_when == "FIRST_COMPLETED":
+            return any(f.done() for f in fs)
+        if return_when == "FIRST_EXCEPTION":
+            return all(f.done() for f in fs) or any(f.done() and f._res._success is False for f in fs)
+        return all(f.done() for f in fs)
+    try:
+        pool._wait(cond, timeout, "wait")
+    except MPTimeoutError:
+        pass
+    return DoneAndNotDoneFutures({f for f in fs if f.done()}, {f for f in fs if not f.done()})
+
+
+import concurrent.futures as _cf  # noqa: E402
+
+_REAL_AS_COMPLETED = _cf.as_completed
+_REAL_WAIT = _cf.wait
